@@ -9,6 +9,7 @@ from harness.core import Check, Outcome, SubCheck
 GRID = st.integers(0, 16).map(lambda k: k * 0.25)
 # pickup latency allowance per broker: polling constants in the code (+ generated latencies, added per case)
 L_PICKUP = {"mem": 0.3, "redis": 0.9, "amqp": 0.5}
+L_LATE = {"mem": 1.15, "redis": 1.65, "amqp": 0.15}  # promotion latency of a delayed message after its due time (as in C05)
 
 
 def _dur(j: dict) -> float:
@@ -50,14 +51,28 @@ def conc_case(draw, brokers):
         elif mode == "after":
             j["after"] = f"j{draw(st.integers(0, i - 1))}"
             j["after_delay"] = draw(st.sampled_from([0, 0, 0.001, 0.01]))
+        # (RabbitMQ: one deferred job per case - several per-message expirations in one delayed queue block each other, known finding D19)
+        if mode != "after" and kind == "ret" and "ttl" not in j and draw(st.integers(0, 5)) == 0 and not (
+                broker == "amqp" and any("defer_until" in x for x in jobs)):
+            # deferred a little: it waits in the delayed category first and is deliverable from its due time on
+            j["defer_until"] = round(j.get("enqueue_at", 0.0) + draw(st.sampled_from([0.3, 0.8, 1.5])), 3)
         jobs.append(j)
     case = {"broker": broker, "seed": draw(st.integers(0, 2**16)), "converter": "basic", "actors": actors,
             "policy": None, "worker": {"tasks_limit": tl}, "jobs": jobs}
     if broker != "mem":
         case["lat"] = draw(st.lists(st.sampled_from([0.0, 0.001, 0.003]), max_size=20))
-    gen.host_dims(draw, case, prio=False)
+    deferred = [j for j in jobs if "defer_until" in j]
+    if deferred and draw(st.booleans()):
+        # an operator's tool looks into the delayed category: it takes a waiting message before it is due, still holds it when the due
+        # time passes, and hands it back.  From then on it is deliverable like any other
+        d = draw(st.sampled_from(deferred))
+        case["inspect"] = [{"at": max(0.0, round(d["defer_until"] - draw(st.sampled_from([0.05, 0.2])), 3)), "queue": d["queue"],
+                            "category": "DELAYED", "n": draw(st.integers(1, 2)), "hold": draw(st.sampled_from([0.1, 0.4, 1.0])),
+                            "how": draw(st.sampled_from(["reject", "close"]))}]
+    gen.host_dims(draw, case, prio=False, rename=not deferred)
     total = sum(_dur(j) for j in jobs)
     latest = max([j.get("enqueue_at", 0.0) for j in jobs] + [0.0])
+    latest = max([latest] + [j["defer_until"] + 1.5 for j in jobs if "defer_until" in j])
     case["horizon"] = round(latest + total + len(jobs) * (L_PICKUP[broker] + 0.2) + 6.0, 3)
     return case
 
@@ -112,7 +127,8 @@ def run(case: dict) -> Outcome:
         id_ = j["id"]
         if id_ not in tr.enqueue_t:
             continue
-        t_enq = max(tr.enqueue_t[id_], tr.worker_started_at or 0.0)
+        # (deliverable from: enqueued, worker running, due, and not in the hands of somebody inspecting the delayed category)
+        t_enq = max(tr.enqueue_t[id_], tr.worker_started_at or 0.0, j.get("defer_until", 0.0), tr.extra.get("released", {}).get(id_, 0.0))
         ex = tr.execs_of(id_)
         t_start = ex[0].t0 if ex else (tr.stop_requested_at or tr.final_t)
         # longest stretch inside [t_enq, t_start] with active < tl
@@ -132,9 +148,12 @@ def run(case: dict) -> Outcome:
                 worst = max(worst, hi - free_since)
             elif a >= tl:
                 free_since = None
-        if worst > L + 1e-9 and ex:
+        # (a deferred message additionally needs the broker's promotion latency after its due time: whole-second scores on Redis,
+        #  a migration every second of idle polling in memory)
+        allow = L + (L_LATE[case["broker"]] if "defer_until" in j else 0.0)
+        if worst > allow + 1e-9 and ex:
             out.v("slot-idle", f"job {id_} was deliverable from {t_enq:.3f}, a slot was free and nothing was started for {worst:.3f}s "
-                  f"(> {L:.3f}s) before it started at {t_start:.3f} (tasks_limit={tl})", broker=case["broker"])
+                  f"(> {allow:.3f}s) before it started at {t_start:.3f} (tasks_limit={tl})", broker=case["broker"])
             break
     saturated = n > tl and tr.max_active >= tl
     out.nontrivial = saturated
